@@ -1243,6 +1243,36 @@ func (ex *Exec) execStmt(st *State, s ast.Stmt) []*State {
 		return ex.execGo(st, n)
 	case *ast.EmptyStmt:
 		return []*State{st}
+	case *ast.SendStmt:
+		// ghost event: a value was sent on the channel (no blocking or buffering is modelled)
+		ch, ok := ex.evalExpr(st, n.Chan).(*ObjV)
+		if !ok {
+			panic(unsupported("send on a non-channel value at %s", ex.pos(n)))
+		}
+		ex.evalExpr(st, n.Value)
+		ex.traceEvent(st, "send", ch.ID)
+		return []*State{st}
+	case *ast.SelectStmt:
+		// every ready communication may be chosen: one successor state per clause (the default clause included)
+		var out []*State
+		for _, cc := range n.Body.List {
+			cl := cc.(*ast.CommClause)
+			s2 := st.clone()
+			sts := []*State{s2}
+			if cl.Comm != nil {
+				sts = ex.execStmt(s2, cl.Comm)
+			}
+			for _, o := range ex.execBlock(sts, cl.Body) {
+				if o.ctl == ctlBreak {
+					o.ctl = ctlNormal
+				}
+				out = append(out, o)
+			}
+		}
+		if len(out) == 0 {
+			panic(abortPath{}) // select {} blocks forever
+		}
+		return out
 	}
 	panic(unsupported("statement %T at %s", s, ex.pos(s)))
 }
@@ -1959,6 +1989,12 @@ func (ex *Exec) execLoopInv(st *State, spec *LoopSpec, ord int, node ast.Node, c
 		}
 		c, ok := ex.cells[v]
 		if !ok {
+			// package-level variables live in their own cells
+			if gc, isGlobal := globalCells[v]; isGlobal {
+				c, ok = gc, true
+			}
+		}
+		if !ok {
 			continue
 		}
 		if _, live := st.store[c]; !live {
@@ -2269,6 +2305,11 @@ func (ex *Exec) execLoopInvRange(st *State, spec *LoopSpec, ord int, n *ast.Rang
 			continue
 		}
 		c, ok := ex.cells[v]
+		if !ok {
+			if gc, isGlobal := globalCells[v]; isGlobal {
+				c, ok = gc, true
+			}
+		}
 		if !ok {
 			continue
 		}
